@@ -249,6 +249,20 @@ func c16Addr(c *Ctx) {
 			flag := func(a Atom) bool { return a.Kind == "bool" && pi < len(f.Params) && strip(a.X) == ssa.Value(f.Params[pi]) }
 			c.check(w.requires(f, rl.If, flag, true), rule, "_Write/"+ref+"-guarded-by-flag", w.ipos(rl.If), "printed only when the flag is set", ref+" is printed although the corresponding flag is false: it leaks into the dialog key")
 		}
+		// the key rendering prints stored components only: no accessor that substitutes a default (port, transport)
+		acc := defaultingAccessors(w)
+		for _, pf := range []*ssa.Function{f, w.Fn("(*SIPURI).ToString")} {
+			if pf == nil {
+				continue
+			}
+			for _, cs := range w.callsIn(pf) {
+				for _, callee := range w.calleesOf(cs.In) {
+					if d, ok := acc[callee]; ok {
+						c.bad(rule, w.fname(pf)+"->"+w.fname(callee), w.ipos(cs.In), "the URI rendering used for the dialog key calls "+w.fname(callee)+" (default "+d+"): a default that depends on URI parameters leaks into the key, and an absent port merges with an explicit one")
+					}
+				}
+			}
+		}
 		// ToString passes its flags through
 		if ts := w.Fn("(*SIPURI).ToString"); ts != nil {
 			good := false
